@@ -12,10 +12,10 @@ CFG = dict(
         "the underlying reader returns non-empty short reads (no_empty); a (0, nil) read is compared with the model in the differential run but is outside the theorems",
         "flag theorems: ALL integers f as the word (no range needed), all 16-bit values 0 <= n < 65536",
     ],
-    level_text="31 theorems over the Gallina model of com.Packet Marshal/Unmarshal, MarshalStream/UnmarshalStream, Size and the com.Flag word, by induction, for ALL "
+    level_text="32 theorems over the Gallina model of com.Packet Marshal/Unmarshal, MarshalStream/UnmarshalStream, Size and the com.Flag word, by induction, for ALL "
                "well-formed packets and EVERY split of the byte stream into non-empty short reads: Marshal is total and has length 46 + length bytes + 4*tags + payload; "
                "Unmarshal over (Marshal p ++ rest) returns exactly p and leaves exactly rest (exact consumption), hence concatenated packets parse one after another "
-               "(packets_concat, induction over the list) and the encoding is prefix-free; the same for the nested stream form through the flat Chunk reader and through "
+               "(packets_concat, induction over the list), the encoding is prefix-free and a truncated wire encoding never yields a packet; round trip, exact consumption, concatenation and prefix-freeness also for the nested stream form through the flat Chunk reader and through "
                "data.NewReader over short reads, whose two readers are proved to agree on every input including malformed ones; bit-level (Z.testbit) proofs that "
                "SetLen/SetPosition/SetGroup store their value, keep the other two 16-bit fields and change the low 16 bits only by setting FlagFrag, that Set/Unset of a "
                "16-bit mask never touch the fragment fields, and Clear's behaviour as coded (fields zero; frag bit cleared on a fragment word, SET on a word without it). "
